@@ -106,8 +106,32 @@ func (fr *Frame) call(st *State, cc *ssa.CallCommon, instr ssa.Instruction, pos 
 			return fr.callStatic(st, c.Fn, args, c.Bind, pos, instr, cc)
 		}
 	}
+	// unknown function value (callback stored in a field, parameter): abstracted as a
+	// deterministic, effect-free function of the function value and its scalar arguments
+	res := cc.Signature().Results()
+	allTerms := fv.T != nil
+	for _, a := range args {
+		if a.T == nil {
+			allTerms = false
+		}
+	}
+	if allTerms && res.Len() == 1 {
+		if ex.ghost == 0 {
+			ex.trusted["callbacks called through function values (e.g. Config.messageDropper): deterministic, no effect on modelled state"] = true
+		}
+		ts := []*Term{fv.T}
+		for _, a := range args {
+			ts = append(ts, a.T)
+		}
+		rt := res.At(0).Type()
+		v := ex.ctx.UF("dyncall."+sanitize(mangleType(cc.Signature())), ex.ctx.SortOf(rt), ts...)
+		if ex.ghost == 0 {
+			ex.assume(st, ex.typeFacts(v, rt))
+		}
+		return Val{T: v}
+	}
 	ex.note("call through unknown function value at %s: result havoc, no heap effect assumed", fr.pos(pos))
-	return fr.havocResult(st, cc.Signature().Results(), "dyncall")
+	return fr.havocResult(st, res, "dyncall")
 }
 
 func (fr *Frame) havocResult(st *State, res *types.Tuple, prefix string) Val {
@@ -166,8 +190,27 @@ func (fr *Frame) callStatic(st *State, fn *ssa.Function, args, free []Val, pos t
 		return fr.inline(st, fn, args, free, pos)
 	}
 	ex.note("call to unmodelled external %s at %s: result havoc, no effect on modelled state assumed", fn, fr.pos(pos))
-	ex.trusted["extern: "+fn.String()+" (result arbitrary, no modelled effect)"] = true
+	ex.trusted["extern: "+fn.String()+" (result arbitrary; locals passed by address are havoc; no other modelled effect)"] = true
+	fr.havocPointees(st, args)
 	return fr.havocResult(st, fn.Signature.Results(), "ext."+fn.Name())
+}
+
+// havocPointees overwrites the locals whose address is handed to unknown code.
+func (fr *Frame) havocPointees(st *State, args []Val) {
+	ex := fr.ex
+	for _, a := range args {
+		l := a.L
+		if l == nil && a.T != nil && ex.boxedLocs != nil {
+			l = ex.boxedLocs[a.T.Op]
+		}
+		if l == nil || l.Comp == "" || ex.ghost > 0 {
+			continue
+		}
+		v := ex.ctx.Fresh("out."+sanitize(l.Comp), ex.ctx.SortOf(l.Elem))
+		ex.assume(st, ex.typeFacts(v, l.Elem))
+		fr.loadFacts(st, v, l.Elem)
+		ex.store(st, l, v)
+	}
 }
 
 func (fr *Frame) recursive(fn *ssa.Function) bool {
@@ -433,8 +476,31 @@ func (fr *Frame) invoke(st *State, cc *ssa.CallCommon, recv Val, args []Val, pos
 	}
 	if len(impls) == 0 || len(impls) > 8 {
 		ex.note("interface call %s.%s at %s: %d implementers; result havoc, no modelled effect assumed", ifaceName, m.Name(), fr.pos(pos), len(impls))
+		res := cc.Signature().Results()
+		allTerms := recv.T != nil
+		for _, a := range args {
+			if a.T == nil {
+				allTerms = false
+			}
+		}
+		if allTerms && res.Len() == 1 && ex.w.deterministicIface[ifaceName+"."+m.Name()] {
+			// application callbacks declared deterministic in the contracts file: an
+			// uninterpreted function of the receiver and the arguments
+			ex.trusted[fmt.Sprintf("iface: %s.%s is a deterministic, effect-free function of its receiver and arguments", ifaceName, m.Name())] = true
+			ts := []*Term{recv.T}
+			for _, a := range args {
+				ts = append(ts, a.T)
+			}
+			rt := res.At(0).Type()
+			v := ex.ctx.UF("invoke."+sanitize(ifaceName+"."+m.Name()), ex.ctx.SortOf(rt), ts...)
+			if ex.ghost == 0 {
+				ex.assume(st, ex.typeFacts(v, rt))
+			}
+			return Val{T: v}
+		}
 		ex.trusted[fmt.Sprintf("iface: %s.%s (result arbitrary, no modelled effect)", ifaceName, m.Name())] = true
-		return fr.havocResult(st, cc.Signature().Results(), "invoke."+m.Name())
+		fr.havocPointees(st, args)
+		return fr.havocResult(st, res, "invoke."+m.Name())
 	}
 	// closed-world dispatch: ite over dynamic type
 	type branch struct {
